@@ -28,7 +28,7 @@ let () =
          let lo = (unique land 0x1fffff) lor ((manuf land 0x7ff) lsl 21) in
          let hi = (devinst land 0xff) lor ((func land 0xff) lsl 8) lor (((cls land 0x7f) lsl 1) lsl 16) lor ((0x80 lor ((industry land 7) lsl 4) lor (sysinst land 0xf)) lsl 24) in
          Z.add (zi lo) (Z.mul (zi hi) (z_of_string "4294967296")) in
-       let devs = List.init ndev (fun i -> mk_dev w64 (zi (src + i)) (name i) (match geto (Printf.sprintf "tx%d" i) with Some l -> l | None -> [])) in
+       let devs = List.init ndev (fun i -> mk_dev w64 (zi ((src + i) land 255)) (name i) (match geto (Printf.sprintf "tx%d" i) with Some l -> l | None -> [])) in
        let n0 = opened_node w64 (zi mode) t0 (zi (q * ndev)) pc devs in
        let opstrs = String.split_on_char ';' (String.sub line (bar+1) (String.length line - bar - 1)) in
        let ops = List.map (fun s -> match split s with
